@@ -443,7 +443,7 @@ func c06Directed(c *evid.Ctx, point, wkind, rkind string, real bool, seed int64)
 			return
 		}
 		c.Count("directed_writer_completed_while_reader_parked", 1)
-	case <-time.After(5 * time.Second):
+	case <-time.After(30 * time.Second):
 		// the writer needs the reader to move on (should not happen: readers never block the writer)
 		park.Release()
 		if err := <-wdone; err != nil {
@@ -457,7 +457,7 @@ func c06Directed(c *evid.Ctx, point, wkind, rkind string, real bool, seed int64)
 	select {
 	case op := <-done:
 		h.AddRead(op)
-	case <-time.After(15 * time.Second):
+	case <-time.After(60 * time.Second):
 		c.Violation("C06:reader-stuck:"+point, "reader did not return after being released", map[string]any{"point": point, "writer": wkind})
 		return
 	}
